@@ -17,6 +17,7 @@ import (
 type mrec struct {
 	val int
 	ver int
+	exp bool
 }
 
 type mstate struct {
@@ -52,7 +53,7 @@ func (m *mstate) key() string {
 	sort.Strings(keys)
 	var sb strings.Builder
 	for _, k := range keys {
-		fmt.Fprintf(&sb, "%s=%d,%d;", k, m.recs[k].val, m.recs[k].ver)
+		fmt.Fprintf(&sb, "%s=%d,%d,%v;", k, m.recs[k].val, m.recs[k].ver, m.recs[k].exp)
 	}
 	fmt.Fprintf(&sb, "n%d|", m.next)
 	ids := make([]int, 0, len(m.i2v))
@@ -79,15 +80,19 @@ func (m *mstate) bind(i, v int) bool {
 	return true
 }
 
-func (m *mstate) write(key string, val int) int {
+func (m *mstate) write(key string, val int, exp bool) int {
 	n := m.next
-	m.recs[key] = mrec{val: val, ver: n}
+	m.recs[key] = mrec{val: val, ver: n, exp: exp}
 	m.next++
 	return n
 }
 
-func (m *mstate) matchRec(o *ORec, key string, val, ver int) bool {
-	return o != nil && !o.Exp && o.Key == key && o.Val == val && m.bind(o.Ver, ver)
+func (m *mstate) matchRec(o *ORec, key string, val, ver int, exp bool) bool {
+	want := 0
+	if exp {
+		want = 1
+	}
+	return o != nil && o.Exp == want && o.Key == key && o.Val == val && m.bind(o.Ver, ver)
 }
 
 // apply runs the event on a copy of the state; nil if the contract cannot give the observed result here
@@ -95,6 +100,7 @@ func apply(m0 *mstate, e Ev) *mstate {
 	m := m0.clone()
 	o := e.Op
 	val := valID(kvx.ValBytes(o.Val))
+	exp := o.Exp != ""
 	switch o.K {
 	case "C":
 		if r, ok := m.recs[o.Key]; ok {
@@ -103,7 +109,7 @@ func apply(m0 *mstate, e Ev) *mstate {
 			}
 			return nil
 		}
-		n := m.write(o.Key, val)
+		n := m.write(o.Key, val, exp)
 		if e.Class == "OVer" && m.bind(e.Ver, n) {
 			return m
 		}
@@ -115,7 +121,7 @@ func apply(m0 *mstate, e Ev) *mstate {
 			}
 			return nil
 		}
-		if e.Class == "ORec" && m.matchRec(e.Rec, o.Key, r.val, r.ver) {
+		if e.Class == "ORec" && m.matchRec(e.Rec, o.Key, r.val, r.ver, r.exp) {
 			return m
 		}
 	case "M":
@@ -130,19 +136,19 @@ func apply(m0 *mstate, e Ev) *mstate {
 				}
 				continue
 			}
-			if !m.matchRec(e.Recs[i], k, r.val, r.ver) {
+			if !m.matchRec(e.Recs[i], k, r.val, r.ver, r.exp) {
 				return nil
 			}
 		}
 		return m
 	case "P":
-		n := m.write(o.Key, val)
-		if e.Class == "ORec" && m.matchRec(e.Rec, o.Key, val, n) {
+		n := m.write(o.Key, val, exp)
+		if e.Class == "ORec" && m.matchRec(e.Rec, o.Key, val, n, exp) {
 			return m
 		}
 	case "N":
 		for _, x := range o.Recs {
-			m.write(x.Key, valID(kvx.ValBytes(x.Val)))
+			m.write(x.Key, valID(kvx.ValBytes(x.Val)), x.Exp != "")
 		}
 		if e.Class == "OOk" {
 			return m
@@ -155,18 +161,18 @@ func apply(m0 *mstate, e Ev) *mstate {
 			}
 			return nil
 		}
-		exp, bound := m.i2v[e.VerID]
+		want, bound := m.i2v[e.VerID]
 		if !bound {
-			exp = 0
+			want = 0
 		}
-		if r.ver != exp {
+		if r.ver != want {
 			if e.Class == "OConflict" {
 				return m
 			}
 			return nil
 		}
-		n := m.write(o.Key, val)
-		if e.Class == "ORec" && m.matchRec(e.Rec, o.Key, val, n) {
+		n := m.write(o.Key, val, exp)
+		if e.Class == "ORec" && m.matchRec(e.Rec, o.Key, val, n, exp) {
 			return m
 		}
 	case "D":
@@ -184,11 +190,11 @@ func apply(m0 *mstate, e Ev) *mstate {
 	return nil
 }
 
-// search returns the positions of hist in a linearisation order, or nil
-func search(hist []Ev) []int {
+// search returns the positions of hist in a linearisation order, or nil; exhausted: it gave up
+func search(hist []Ev) (wit []int, exhausted bool) {
 	n := len(hist)
 	if n == 0 {
-		return []int{}
+		return []int{}, false
 	}
 	done := make([]bool, n)
 	order := make([]int, 0, n)
@@ -241,7 +247,7 @@ func search(hist []Ev) []int {
 		return false
 	}
 	if rec(newState()) {
-		return order
+		return order, false
 	}
-	return nil
+	return nil, budget < 0
 }
